@@ -18,9 +18,11 @@ import time
 
 ROOT = os.path.dirname(os.path.abspath(__file__))
 SIM = os.path.join(ROOT, "sim")
-EVID = os.path.join(ROOT, "evidence")
+# mutant / seeded-change runs set VERIF_EVIDENCE_DIR so that they never overwrite the evidence
+# of the unchanged tree
+EVID = os.environ.get("VERIF_EVIDENCE_DIR") or os.path.join(ROOT, "evidence")
 PARTS = os.path.join(EVID, "parts")
-REPLAYS = os.path.join(ROOT, "replays")
+REPLAYS = os.environ.get("VERIF_REPLAY_DIR_OVERRIDE") or os.path.join(ROOT, "replays")
 KNOWN = os.path.join(ROOT, "known_findings.txt")
 ENV = dict(os.environ, CARGO_NET_OFFLINE="true", VERIF_REPLAY_DIR=REPLAYS)
 NCPU = os.cpu_count() or 16
@@ -298,7 +300,7 @@ def run_miri(seed):
     scripts = 6
     total, viol = 0, []
     for script in range(scripts):
-        cmd = ["cargo", "+nightly", "miri", "run", "--offline", "--quiet", "--", str(seed), str(script)]
+        cmd = ["cargo", "+nightly", "miri", "run", "--offline", "--quiet", "--bin", "threads", "--", str(seed), str(script)]
         p = subprocess.run(cmd, cwd=d, env=env, stdout=subprocess.PIPE, stderr=subprocess.PIPE, text=True)
         total += n_seeds
         if p.returncode != 0:
@@ -308,13 +310,33 @@ def run_miri(seed):
             failing = [l for l in (p.stdout + p.stderr).splitlines() if "seed" in l.lower()][:5]
             json.dump({"property": "C15", "layer": "threads", "verif_seed": seed, "script": script,
                        "miri_flags": env["MIRIFLAGS"], "failing_seed_lines": failing,
-                       "replay_cmd": f"cd {d} && MIRIFLAGS='-Zmiri-seed=<n> -Zmiri-preemption-rate=0.3 -Zmiri-disable-isolation' cargo +nightly miri run --offline -- {seed} {script}",
+                       "replay_cmd": f"cd {d} && MIRIFLAGS='-Zmiri-seed=<n> -Zmiri-preemption-rate=0.3 -Zmiri-disable-isolation' cargo +nightly miri run --offline --bin threads -- {seed} {script}",
                        "output_tail": tail}, open(path, "w"), indent=1)
             viol.append({"key": f"thread-schedule@script{script}", "replay": path, "detail": tail[-400:]})
             log(f"  miri script {script}: FAILED")
         else:
             log(f"  miri script {script}: {n_seeds} schedules ok")
-    return {"schedules": total, "scripts": scripts, "miri_seeds_per_script": n_seeds, "threads": "2-3 real std threads",
+    # the history layer itself under the interpreter (UB detection on every explored history)
+    hist_runs = int(os.environ.get("VERIF_MIRI_HIST_RUNS", "400"))
+    hist = {}
+    env2 = dict(ENV, MIRIFLAGS="-Zmiri-disable-isolation")
+    for config in (0, 1):
+        cmd = ["cargo", "+nightly", "miri", "run", "--offline", "--quiet", "--bin", "hist", "--", str(seed), str(hist_runs), str(config)]
+        p = subprocess.run(cmd, cwd=d, env=env2, stdout=subprocess.PIPE, stderr=subprocess.PIPE, text=True)
+        if p.returncode != 0:
+            os.makedirs(REPLAYS, exist_ok=True)
+            path = os.path.join(REPLAYS, f"C15-hist-miri-s{seed}-c{config}.json")
+            tail = (p.stdout + p.stderr)[-4000:]
+            json.dump({"property": "C15", "layer": "threads", "what": "history layer under Miri", "verif_seed": seed, "config": config,
+                       "replay_cmd": f"cd {d} && MIRIFLAGS=-Zmiri-disable-isolation cargo +nightly miri run --offline --bin hist -- {seed} {hist_runs} {config}",
+                       "output_tail": tail}, open(path, "w"), indent=1)
+            viol.append({"key": f"miri-hist@config{config}", "replay": path, "detail": tail[-400:]})
+            log(f"  miri hist config {config}: FAILED")
+        else:
+            line = [l for l in p.stdout.splitlines() if l.startswith("ok ")]
+            hist[f"config{config}"] = line[-1] if line else "ok"
+            log(f"  miri hist config {config}: {hist[f'config{config}']}")
+    return {"schedules": total, "scripts": scripts, "hist_layer_under_miri": hist, "miri_seeds_per_script": n_seeds, "threads": "2-3 real std threads",
             "wall_s": round(time.time() - t0, 1), "violations": viol,
             "what": "real once_cell::sync::OnceCell + std::sync::Arc code of SourceFile/LineIndex under Miri's seeded scheduler, data-race and UB detection on"}
 
